@@ -10,6 +10,7 @@ import (
 type H struct {
 	res  *vlib.Result
 	mine func(i int) bool // shard filter
+	thin int              // 0: every mutation of the lists; k>0: every third one, offset k-1 (the offset rotates over the bases)
 }
 
 const (
@@ -164,12 +165,16 @@ func (h *H) decPollRespLegacy(cls string, rc rec, data []byte) (o pollRespOut, o
 }
 
 func (h *H) postPollResp(o pollRespOut, rc rec) {
-	if o.err != nil || o.offer == "" {
+	if o.err != nil {
 		return
 	}
 	if !natNames[o.nat] {
+		suffix := ""
+		if o.offer == "" {
+			suffix = ":no-match"
+		}
 		if strictPollResponseNAT {
-			h.res.Violatef("accept-forbidden:"+nPollResp+":nat-outside-names", rc, "client match accepted with NAT %s", clipS(o.nat))
+			h.res.Violatef("accept-forbidden:"+nPollResp+":nat-outside-names"+suffix, rc, "poll response accepted with NAT %s", clipS(o.nat))
 		} else {
 			h.res.Obs("observed_poll_response_nat_outside_names_accepted", 1)
 		}
